@@ -20,7 +20,7 @@ EXPLANATION = (
     " (R8) the VCF-text header sub-reader (vcf, bcf; sync and async) agrees with the majority of the ten copies of that state machine."
     " (R10) the async VCF writer clears its line buffer before the inner writer fills it; (R11) element-wise reset: every per-sample value row of the reused Samples is cleared (loop, for_each(clear), whole clear, or a callee that resets on all success paths) before parse_values — which returns Ok untouched for a `.` column — fills it."
     " (R12) decode after split: no function splits (split / split_once / memchr) a value that derives from the result of percent_decode."
-    " (R13) table agreement of the header enums: every variant the header writer spells as a literal is the result of an arm of the header parser (genuine defect F46, repaired: FORMAT numbers LA / LR / LG / P / M were written but not parsed).")
+    " (R13) table agreement of the header enums: every variant the header writer spells as a literal is the result of an arm of the header parser (genuine defect F46, repaired: FORMAT numbers LA / LR / LG / P / M were written but not parsed). (R14) the header string parser finds the closing quote with a stateful escape scan (shared with C18.R3). (R15) every field of a header map kind's inner struct is read by its writer (genuine defect F55, repaired: IDX).")
 ASSUMPTIONS = ["percent-encoding crate encodes exactly the bytes in the AsciiSet (plus non-ASCII) and decodes %XX",
                "reader delimiter constants are the named DELIMITER/SEPARATOR consts of the reader modules (floor-checked)"]
 NOT_DECIDED = ["value equality over the VCF grammar (numbers, floats, genotype strings, header records)",
@@ -230,6 +230,40 @@ def run(ctx):
                         "to parse_escaped_string")
     from .c18 import quote_scanner_rule
     quote_scanner_rule(ctx, "C09.R14", "noodles_vcf::header::parser::record::value::map::field::value::string::parse_escaped_string", "VCF header")
+
+    ctx.rule("C09.R15", "A7 field coverage of the structured header lines: for each map kind (INFO, FORMAT, FILTER, contig, ALT, META) the writer "
+                        "write_<kind> reads EVERY field of the kind's inner struct through its same-named accessor (type-checked struct fields "
+                        "vs resolved callees) — a field the parser stores and the writer never reads is lost on the way out (genuine defect "
+                        "F55, repaired: IDX of four kinds)")
+    n15 = 0
+    for ak, adt in sorted(fb.adts.items()):
+        m15 = re.match(r"^noodles_vcf::header::record::value::map::(\w+)::(\w+)$", ak)
+        if not m15 or adt.get("kind") != "Struct":
+            continue
+        wk = "noodles_vcf::io::writer::header::record::value::map::%s::write_%s" % (m15.group(1), m15.group(1))
+        fw15 = fb.fns.get(wk)
+        if fw15 is None or not fw15.blocks:
+            continue
+        fields = [x["name"] for x in adt["variants"][0]["fields"]]
+        if not fields:
+            continue
+        n15 += 1
+        ctx.saw_fn(fw15)
+        called = {(c.get("f") or "").split("::")[-1] for _b, c in fw15.calls()}
+        # a field may be written by the direct caller that frames the line (the ID tag of an `other` map goes through write_other_map);
+        # a closure caller counts with its parent
+        for ck, cf in fb.fns.items():
+            if cf.blocks and any((c.get("f") or "") == wk for _b, c in cf.calls()):
+                for g in fb.family(cf.root if cf.is_closure else cf.key):
+                    called |= {(c.get("f") or "").split("::")[-1] for _b, c in g.calls()}
+        missing = [x for x in fields if x not in called]
+        if missing:
+            ctx.violation("C09.R15", "C09.R15/field-never-written/%s/%s" % (m15.group(1), ",".join(missing)),
+                          "%s never reads %s of %s: the header parser stores the field, the writer drops it, and the header does not read back "
+                          "equal (for IDX: a BCF header loses the explicit dictionary indices its records refer to)" % (wk, ", ".join(missing), ak), fw15.loc())
+        else:
+            ctx.ok("C09.R15", wk, "reads " + ", ".join(fields), fw15.loc())
+    ctx.floor("C09.R15", "header map kinds with a field-bearing inner struct and a writer", n15, 5)
 
     ctx.rule("C09.R4", "impl table: variant_end / variant_span are single provided implementations (lazy and eager share them)")
     tr = fb.traits.get(V + "variant::record::Record")
